@@ -77,32 +77,9 @@ def histories(ctx, u, n, test, sub):
     return True
 
 
-def prove(ctx, module, needs):
-    """TLAPS: LastGood as an inductive invariant for unbounded alphabets/universes (the TLC runs are bounded).
-    A failed or timed-out proof is inconclusive, never a verdict on the code."""
-    import shutil, subprocess, re
-    work = os.path.join(ctx.tmp, "tlaps-" + module)
-    os.makedirs(work, exist_ok=True)
-    for f in needs + [module]:
-        shutil.copy(os.path.join(vf.SPEC, f + ".tla"), work)
-    try:
-        p = subprocess.run(["tlapm", "--nofp", "--threads", "8", module + ".tla"], cwd=work, capture_output=True, text=True, timeout=600)
-    except (subprocess.TimeoutExpired, FileNotFoundError) as e:
-        ctx.inconclusive("tlapm %s: %s" % (module, e))
-        return
-    out = (p.stdout or "") + (p.stderr or "")
-    m = re.search(r"All (\d+) obligations? proved", out)
-    if not m:
-        ctx.inconclusive("tlapm %s: proof not accepted:\n%s" % (module, out[-1500:]))
-        return
-    n = int(m.group(1))
-    ctx.log("TLAPS %s: all %d obligations proved" % (module, n))
-    ctx.cover("proof-" + module, obligations=n, discharged=n)
-
-
 def run(ctx):
-    prove(ctx, "UpdateLoop_Proof", ["UpdateLoop"])
-    prove(ctx, "ControlPlane_Proof", ["ControlPlane"])
+    ctx.tlaps("UpdateLoop_Proof", ["UpdateLoop"])
+    ctx.tlaps("ControlPlane_Proof", ["ControlPlane"])
     ctx.assumptions += [
         "update sequences: every sequence of 4 (quick) / 5 (thorough) messages over service texts {empty, v1, v2, invalid} and manual texts {empty, m1, invalid} (invalid texts drawn by seed from a list of rejected commands); custom backend: every sequence of 3/4 poll answers over {j1, j2, [], truncated JSON, invalid command, HTTP 500}",
     ]
